@@ -501,7 +501,9 @@ func runC17(c *vx.Ctx) {
 	c.Assume("pending tracking is switched on on an empty batch, as the block processor and the worker do")
 	depth := 4
 	if c.Thorough() {
-		depth = 6
+		// depth 6 does not fit: every worker keeps the whole frontier of distinct model states and
+		// eight of them outgrow the machine's memory (62 GB) before the level is finished
+		depth = 5
 	}
 	dir, err := os.MkdirTemp("/dev/shm", "vq-c17-")
 	if err != nil {
@@ -523,10 +525,7 @@ func runC17(c *vx.Ctx) {
 		name  string
 		depth int
 	}{{"lockstep", depth}, {"edge-bytes", depth - 1}, {"edge-bytes-root", depth - 1}}
-	if c.Thorough() {
-		// the edge-byte universes are about the observers (iterator bounds), not about depth
-		unis[1].depth, unis[2].depth = depth-2, depth-2
-	}
+	// (the edge-byte universes are about the observers - iterator bounds - and run one level shallower)
 	for _, u := range unis {
 		if !c.Wants(u.name) {
 			continue
